@@ -334,6 +334,13 @@ def _decode_bytestrings(self):
         w = c[0].data['bound'].get('waterfall', NONE)
         ctx.formula('PROPAGATE', 'derived frames inherit the parent\'s Waterfall through check_waterfall()', fi, w,
                     T.mk_call(FR + 'check_waterfall', [sym('fr')]), node=c[0].node, construct='from_data(waterfall=...)')
+    # "derived frames inherit the parent's Waterfall object" -- as a deep copy: a slice / de-drifted frame and its parent refresh
+    # their own container on save; sharing one Waterfall makes a Waterfall handed out for the parent describe the child after
+    # the child is saved (and the reverse)
+    from .c17 import REF_FROM_DATA
+    agree_ref(ctx, ctx.func(FR + 'from_data'), REF_FROM_DATA, 'from_data: the Waterfall handed to a derived frame is attached as a deep '
+              'copy (h5 handle dropped first), never shared with the parent', what=('attrstores', 'deletes'),
+              no_inline=(FR + '__init__', FR + 'add_metadata'))
     # the helpers and the load path describe the file as it is NOW
     from .common import memo_obligation
     ctx.clause = 'D6'
